@@ -782,7 +782,9 @@ def fusion(
     while True:
         try:
             instr2, addr2 = next(instr_iter)
-        except (StopIteration, NotImplementedError):
+        except (StopIteration, NotImplementedError, AssertionError):
+            # The look-ahead only exists to fuse a PRE byte with its instruction;
+            # bytes after instr1 that fail to decode must not affect instr1.
             yield instr1, addr1
             break
 
